@@ -131,6 +131,11 @@ func c13LoadLarge(t *testing.T, rep *verifkit.Report, last int) {
 		golden = bytes.ReplaceAll(golden, []byte("USERFILTERSPATH"), []byte("/verif-c13/data/userfilters/*"))
 		golden = bytes.ReplaceAll(golden, []byte("FILEPATH"), []byte(c13LoadFilePath))
 		for _, size := range sizes {
+			if !verifkit.Thorough() && kind.name == "current" && size != c13LoadMiB+5 && size != c13LoadMiB*5/2 {
+				// Quick: the full golden only at two sizes; current-minimal
+				// covers every size.
+				continue
+			}
 			body, rules, version, berr := c13LoadLargeBody(golden, size)
 			if berr != nil {
 				rep.Inconcl("large files: " + berr.Error())
